@@ -6,7 +6,8 @@
    value; walks the SORTED list since fix/C08-C11-notification-path), find_notification_by_uuid,
    find_notification_data_by_index; AttSrvModel.v: notify_by_value / notify_by_uuid / request, att_output. *)
 From BT Require Import Base.ListX AttDb.AttDbModel AttDb.AttDbNotifProofs NQueue.NQueueModel NQueue.NQueueSpec NQueue.NQueueProofs
-  AttSrv.AttSrvModel AttSrv.AttSrvFrame AttSrv.AttSrvNotifSpec AttSrv.AttSrvSpecC10 AttSrv.AttSrvProofsC10 AttSrv.AttSrvNotifExamples AttDb.AttDbNotifIndex.
+  AttSrv.AttSrvModel AttSrv.AttSrvFrame AttSrv.AttSrvNotifSpec AttSrv.AttSrvSpecC10 AttSrv.AttSrvProofsC10 AttSrv.AttSrvNotifExamples AttDb.AttDbNotifIndex
+  AttDb.AttDbProofs AttSrv.AttSrvNotifObs AttSrv.AttSrvProofsC09T AttSrv.AttSrvProofsC10T AttSrv.AttSrvProofsC10T2 AttSrv.AttSrvProofsC10T3.
 Local Open Scope N_scope.
 
 (* ---- requests. For EVERY configuration and priority declaration: notify( value ) / indicate( value ) for
@@ -102,9 +103,97 @@ Theorem C10_right_characteristic_if_no_empty_service :
 Proof. exact notif_index_ok_nonempty. Qed.
 Print Assumptions C10_right_characteristic_if_no_empty_service.
 
-(* MISSING: the trace level statement (the monitor accepts every model trace for such configurations): it
-   needs the simulation between the observer and srv_state (pending set = queue bits through the C12
-   abstraction, tracked CCCD bits = store, known values = vals); the theorems above are its ingredients. *)
+(* The trace level statements follow, clause by clause (simulation between the observer and srv_state: requested
+   set = queue bits through the C12 abstraction, tracked CCCD bits = store); the theorems above are their
+   ingredients. MISSING: the clause wrong_value (known values = vals), see the end of that part. *)
+(* ---- trace level, the clause not_subscribed (check10_ns = that clause of check10 alone; C10_not_subscribed_complete:
+   whenever check10 reports not_subscribed so does check10_ns). For every well formed configuration without
+   include_service<> with env10 c = true (executable: env09 - no write queue, no encryption requirement on a
+   characteristic with CCCD -, attributable - every service has a characteristic -, all handles < 65536, the queue
+   has as many entries as there are CCCDs) and every history of any length of any operations (PDUs of bytes) on
+   any connections whose model trace contains no FAULT: the clause never fires on the model's trace - a
+   notification / indication is transmitted only to a connection whose CCCD of that characteristic, as last
+   written by that connection, has the bit of that kind. By simulation on top of C09's (sim09: tracked CCCD bits =
+   stored bits) with: the dequeued index is inside the queue (queue size invariant, C12 abstraction), the observer's
+   table has exactly one entry per value attribute and finds the same entry under the value handle and under the
+   CCCD handle (by_cccd_handle_same), a value attribute with CCCD is followed by its CCCD (value_followed_by_cccd),
+   C10_right_characteristic_partial. *)
+Theorem C10_not_subscribed_never_fires :
+  forall c ops, wf c -> no_includes c -> env10 c = true -> forallb op10_bytes ops = true ->
+    no_fault (srv_run c (srv_init c) ops) -> monitor10_ns c (srv_run c (srv_init c) ops) = None.
+Proof. exact monitor10_ns_accepts_model. Qed.
+Print Assumptions C10_not_subscribed_never_fires.
+
+Theorem C10_not_subscribed_complete :
+  forall c m o r, check10 c m o r = Some t10_not_subscribed -> check10_ns c m o r = Some t10_not_subscribed.
+Proof. exact check10_ns_complete. Qed.
+Print Assumptions C10_not_subscribed_complete.
+
+Example C10_env10_nonvacuous :
+  env10 cfg_p9_mtu65 = true /\ env10 cfg_p4_mtu100 = true /\ no_includes_b (services cfg_p9_mtu65) = true
+  /\ env10 cfg_emptysvc_mtu23 = false.
+Proof. repeat split; vm_compute; reflexivity. Qed.
+
+(* ---- trace level, the clause duplicate_pdu (check10_dup = that clause alone; C10_duplicate_pdu_complete). Same
+   hypotheses as C10_not_subscribed_never_fires; requests by value and by uuid, notifications and indications, any
+   number of repeated requests before the transmission: the model never transmits a second PDU for a characteristic
+   and kind that was transmitted since its last request. By the invariant pinv: a request bit set in the
+   connection's queue (C12 abstraction) is never marked "transmitted" in the observer's requested set, with:
+   the observer's table position of a characteristic is its global characteristic number
+   (C10_table_position_is_gci, from attribute_at as a list: AttDbAttrList), the global characteristic numbers of
+   the sorted list are distinct, the target of a request by uuid (first characteristic with that uuid: ce_first) is
+   the characteristic find_notification_by_uuid queues (uuid_target), the queue bits after an added request
+   (m_chain_add_get) and after a dequeue (dequeue_abs); a confirmation changes no request bit. *)
+Theorem C10_duplicate_pdu_never_fires :
+  forall c ops, wf c -> no_includes c -> env10 c = true -> forallb op10_bytes ops = true ->
+    no_fault (srv_run c (srv_init c) ops) -> monitor10_dup c (srv_run c (srv_init c) ops) = None.
+Proof. exact monitor10_dup_accepts_model. Qed.
+Print Assumptions C10_duplicate_pdu_never_fires.
+
+Theorem C10_duplicate_pdu_complete :
+  forall c m o r, check10 c m o r = Some t10_duplicate_pdu -> check10_dup c m o r = Some t10_duplicate_pdu.
+Proof. exact check10_dup_complete. Qed.
+Print Assumptions C10_duplicate_pdu_complete.
+
+(* the p-th entry of the observer's characteristic table is built from the value attribute of the characteristic
+   with global number p (for every configuration) *)
+Theorem C10_table_position_is_gci :
+  forall c p e, nth_error (char_table c) p = Some e ->
+    exists i s ch cci, attribute_at c i = Some (AValue s ch p cci) /\ e = cent_of c (attr_table c) i s ch p cci.
+Proof. exact table_position_is_gci. Qed.
+Print Assumptions C10_table_position_is_gci.
+
+(* ---- trace level, the clause wrong_characteristic (check10_wc = that clause alone: a PDU that is no notification /
+   indication, whose handle is not the value handle of a characteristic, or whose characteristic was not requested
+   on that connection; C10_wrong_characteristic_complete). Same hypotheses. By the invariant zinv: the requested
+   set of every connection has one entry per characteristic and a request bit set in the connection's queue is
+   marked (requested or transmitted, not 0) in it; with out_key (the PDU of a poll is opcode, the handle of the
+   value attribute of the dequeued characteristic, data), by_value_handle_ex (the observer finds every value
+   handle), by_value_handle_gci (at the characteristic's number), the initial queue has no bits (minit_mget). *)
+Theorem C10_wrong_characteristic_never_fires :
+  forall c ops, wf c -> no_includes c -> env10 c = true -> forallb op10_bytes ops = true ->
+    no_fault (srv_run c (srv_init c) ops) -> monitor10_wc c (srv_run c (srv_init c) ops) = None.
+Proof. exact monitor10_wc_accepts_model. Qed.
+Print Assumptions C10_wrong_characteristic_never_fires.
+
+Theorem C10_wrong_characteristic_complete :
+  forall c m o r, check10 c m o r = Some t10_wrong_characteristic -> check10_wc c m o r = Some t10_wrong_characteristic.
+Proof. exact check10_wc_complete. Qed.
+Print Assumptions C10_wrong_characteristic_complete.
+
+(* ---- the whole monitor, partial: on such a trace of the model, monitor10 reports none of five of its six clauses
+   (fault: the trace has no FAULT; shape: one bit per connection); what remains is wrong_value. *)
+Theorem C10_monitor_accepts_model_partial :
+  forall c ops p tag, wf c -> no_includes c -> env10 c = true -> forallb op10_bytes ops = true ->
+    no_fault (srv_run c (srv_init c) ops) ->
+    monitor10 c (srv_run c (srv_init c) ops) = Some (p, tag) ->
+    tag <> t10_fault /\ tag <> t10_wrong_characteristic /\ tag <> t10_not_subscribed /\ tag <> t10_duplicate_pdu /\ tag <> t10_shape.
+Proof. exact monitor10_five_clauses. Qed.
+Print Assumptions C10_monitor_accepts_model_partial.
+
+(* MISSING for the whole monitor: the clause wrong_value (the observer's known values against vals: needs a frame
+   lemma for vals through the fourteen request handlers - a write changes vals only at the written characteristic,
+   which the observer forgets - and access_read of a value attribute = a prefix of the current value). *)
 Definition C10_monitor_accepts_model_full : Prop :=
   forall c ops, wf c -> all_nonempty (services c) = true -> monitor10 c (srv_run c (srv_init c) ops) = None.
 
